@@ -79,7 +79,7 @@ def scenarios(draw):
              'labels': draw(st.sampled_from([None, None, {'on': '@present'}, {'on': 'yes'}])),
              'errors': draw(st.sampled_from([None, None, 'ignored', 'temporary', 'permanent']))}
         if h['errors'] == 'temporary':
-            h['backoff'] = draw(st.sampled_from([2.0, 1000.0]))
+            h['backoff'] = draw(st.sampled_from([2.0, 1000.0, 0]))
         handlers.append(h)
         ix.append(h['id'])
     handlers.append({'kind': 'event', 'id': 'ev_x', 'resource': 'kopfexamples'})
